@@ -551,6 +551,69 @@ def family_cases(rng):
                                   [wstr("1"), wstr("0"), wstr("0"), wstr("0"), wstr("1/2")], False, False, rng)
 
 
+def corner_cases(rng):
+    """deterministic block of corners that independent property-breaking changes went through (kept every run):
+    structures that are `==` as Python objects (Node.__eq__ ignores lnk) but have different spans; a missing
+    member that must be counted (flag False) with the top weight as the only weight; fractional weights
+    1/2, 1/4, 1/10; gold without a top against a test with one; present-but-empty EDS()/DMRS() members with
+    both ignore flags on (empty is not missing); zero-width spans <3:3> vs <5:5>; DMRS MOD links with every
+    post label (never arguments) against the same links with a real role."""
+    def nd(i, pred, lnk, props=(), carg=None):
+        return {"id": i, "pred": cps(pred), "lnk": list(lnk) if lnk else None,
+                "props": [[cps(f), cps(v)] for f, v in props], "carg": None if carg is None else cps(carg), "edges": []}
+
+    def gr(t, top, nodes, links=()):
+        g = {"t": t, "top": top, "nodes": copy.deepcopy(nodes), "links": []}
+        for s_, e, r, p_ in links:
+            if t == "eds":
+                next(n for n in g["nodes"] if n["id"] == s_)["edges"].append([cps(r), e])
+            else:
+                g["links"].append([s_, e, cps(r), cps(p_)])
+        return g
+    one = [wstr("1")] * 5
+    flags = [(False, False), (True, False), (False, True), (True, True)]
+    wsets = [one, [wstr("0")] * 4 + [wstr("1")], [wstr("0")] * 4 + [wstr("1/2")],
+             [wstr("1/2"), wstr("1/4"), wstr("1/10"), wstr("1/4"), wstr("1/2")],
+             [wstr("1/10"), wstr("0"), wstr("1/2"), wstr("1/4"), wstr("0")]]
+    a03 = nd(1, "_a_n_1", ["c", 0, 3], [("NUM", "sg")], "Kim")
+    a47 = nd(1, "_a_n_1", ["c", 4, 7], [("NUM", "sg")], "Kim")
+    b = nd(2, "_b_v_1", ["c", 8, 9])
+    z3 = nd(1, "_a_n_1", ["c", 3, 3], [("NUM", "sg")], "Kim")
+    z5 = nd(1, "_a_n_1", ["c", 5, 5], [("NUM", "sg")], "Kim")
+    for t1 in ("eds", "dmrs"):
+        for t2 in ("eds", "dmrs"):
+            L = [(1, 2, "ARG1", "NEQ"), (2, 1, "ARG2", "H")]
+            for w in wsets:
+                # == as objects, different spans; zero-width spans
+                yield mk_case("corner", [gr(t1, 1, [a03, b], L)], [gr(t2, 1, [a47, b], L)], w, False, False, rng)
+                yield mk_case("corner", [gr(t1, 1, [z3, b], L)], [gr(t2, 1, [z5, b], L)], w, False, False, rng)
+                yield mk_case("corner", [gr(t1, 1, [z3, b], L)], [gr(t2, 1, [z3, b], L)], w, False, False, rng)
+                # gold without a top vs test with one (and the reverse)
+                yield mk_case("corner", [gr(t1, None, [a03, b], L)], [gr(t2, 1, [a03, b], L)], w, False, False, rng)
+                yield mk_case("corner", [gr(t1, 2, [a03, b], L)], [gr(t2, None, [a03, b], L)], w, False, False, rng)
+                for ig, it in flags:
+                    # a missing member (None or short list) next to a full pair
+                    full = gr(t1, 1, [a03, b], L)
+                    yield mk_case("corner", [full, gr(t2, 2, [a47, b], L)], [full, None], w, ig, it, rng)
+                    yield mk_case("corner", [full, None], [full, gr(t2, 2, [a47, b], L)], w, ig, it, rng)
+                    yield mk_case("corner", [full], [full, gr(t2, 1, [a47, b])], w, ig, it, rng)
+                    yield mk_case("corner", [full, gr(t2, 1, [a47, b])], [full], w, ig, it, rng)
+                    # present but empty is not missing
+                    yield mk_case("corner", [full, gr(t2, None, [])], [full, gr(t1, 1, [a47, b], L)], w, ig, it, rng)
+                    yield mk_case("corner", [full, gr(t1, 1, [a47, b], L)], [full, gr(t2, None, [])], w, ig, it, rng)
+                    yield mk_case("corner", [gr(t1, None, [])], [gr(t2, None, [])], w, ig, it, rng)
+    # DMRS MOD links are never arguments, whatever the post label
+    for post in POSTS:
+        for other in ("ARG1", "MOD"):
+            g = gr("dmrs", 1, [a03, b], [(1, 2, "MOD", post), (2, 1, "ARG1", "NEQ")])
+            t = gr("dmrs", 1, [a03, b], [(1, 2, other, post), (2, 1, "ARG1", "NEQ")])
+            e = gr("eds", 1, [a03, b], [(2, 1, "ARG1", "NEQ")])
+            for w in (one, [wstr("0"), wstr("1"), wstr("0"), wstr("0"), wstr("0")]):
+                yield mk_case("corner", [g], [t], w, False, False, rng)
+                yield mk_case("corner", [g], [e], w, False, False, rng)
+                yield mk_case("corner", [t], [e], w, False, False, rng)
+
+
 def tiny_graphs():
     """all structures with at most 2 nodes over 2 spans × 2 predicates, optional ARG1 edge 1→2, top ∈ {None,1}"""
     sp = [["c", 0, 3], ["c", 4, 7]]
@@ -696,6 +759,7 @@ class C18(Check):
             for ig, it in flags:
                 yield mk_case("shape", copy.deepcopy(golds), copy.deepcopy(tests), one, ig, it, rng)
         yield from family_cases(rng)
+        yield from corner_cases(rng)
         yield from self.random_cases(rng, n)
 
     def random_cases(self, rng, n, kinds=None):
